@@ -22,7 +22,7 @@
 #define VF_L CBOR_MAX_STACK_SIZE
 
 enum {
-  K_DECODED = VC_USER, K_CONSTRUCTED, K_OUTSIDE, K_NODES, K_SHARED, K_PARTIAL, K_BUFSIZES, K_BYTES_CMP, K_ROUNDTRIPS, K_NAN, K_SUFFIXES, K_CONCATS, K_ITEMS_SPLIT, K_CORPUS, K_WIDE,
+  K_DECODED = VC_USER, K_CONSTRUCTED, K_OUTSIDE, K_NODES, K_SHARED, K_PARTIAL, K_BUFSIZES, K_BYTES_CMP, K_ROUNDTRIPS, K_NAN, K_SUFFIXES, K_CONCATS, K_ITEMS_SPLIT, K_CORPUS, K_WIDE, K_LOSSY,
   K_ENC0 /* PROP 7: encoder counters live in chk_encode.c slots */
 };
 static unsigned bn_max, dfs_k, cdepth;
@@ -79,7 +79,12 @@ static void judge_tree(cbor_item_t* t, bool distinct) {
   if (has_partial(w)) vf_cnt(K_PARTIAL, 1);
   if (has_nan(w)) vf_cnt(K_NAN, 1);
   static uint8_t refb[(1 << 17) + 64];
+#if PROP == 7 || PROP == 11
+  ref_lossy_half_ok = true;
+#endif
   size_t el = ref_encode(w, refb, sizeof refb);
+  bool lossy = ref_lossy_halves != 0;
+  if (lossy) vf_cnt(K_LOSSY, 1);
   if (el == 0 || el > sizeof refb) { /* outside the property's domain (cannot happen for these generators) */
     vf_cnt(K_OUTSIDE, 1);
     cbor_decref(&t);
@@ -141,6 +146,14 @@ static void judge_tree(cbor_item_t* t, bool distinct) {
 
 #if PROP == 7
   if (sz != el) vf_fail(NULL, "cbor_serialized_size = %zu, encoding has %zu bytes", sz, el);
+  if (lossy) {
+    /* the content of a half that cannot hold its value is the library's choice; the property is about agreement: take the bytes of one
+     * amply sized call as "those bytes" after checking its return value against the size */
+    static uint8_t big[(1 << 17) + 64];
+    size_t bw = cbor_serialize(t, big, sizeof big);
+    if (bw != el) vf_fail(NULL, "cbor_serialize into an ample buffer returned %zu; cbor_serialized_size = %zu, the item tree determines %zu bytes", bw, sz, el);
+    else memcpy(refb, big, el);
+  }
   for (size_t n = 0; n <= sz + 2; n++) {
     if (sz > 600 && n > 300 && n + 4 < sz) n = sz - 4; /* big strings: every n up to 300, then the boundary region */
     uint8_t* o = end - n;
@@ -264,7 +277,7 @@ static void judge_tree(cbor_item_t* t, bool distinct) {
 
 /* ------------------------------------------------------------------------------------------------ sources */
 static void from_bytes(const uint8_t* b, size_t n, bool distinct) {
-  vf_case("bytes", b, n);
+  vf_case(va_cap > (1u << 20) ? "bytes-corpus" : "bytes", b, n); /* the tag carries the allocator cap the case ran under */
   va_reset();
   struct cbor_load_result res;
   uint8_t* in = vf_guard_put(b, n);
@@ -569,6 +582,7 @@ static void init(void) {
 static void replay(const char* tag, const uint8_t* d, size_t len) {
   va_cap = 64 * 1024;
   if (!strcmp(tag, "bytes")) from_bytes(d, len, false);
+  else if (!strcmp(tag, "bytes-corpus")) { va_cap = 1ull << 30; from_bytes(d, len, false); }
 #if PROP != 14
   else if (!strcmp(tag, "wide") && len >= 6) {
     size_t cap = d[0] | (size_t)d[1] << 8;
@@ -660,6 +674,7 @@ struct vf_check vf_the_check = {
                  [K_SHARED] = "trees_with_shared_subitems", [K_PARTIAL] = "trees_with_partially_filled_definite_containers", [K_BUFSIZES] = "buffer_sizes_tried",
                  [K_BYTES_CMP] = "byte_exact_comparisons", [K_ROUNDTRIPS] = "load_of_serialization", [K_NAN] = "trees_with_NaN", [K_SUFFIXES] = "xy_pairs",
                  [K_CONCATS] = "concatenations", [K_ITEMS_SPLIT] = "items_split", [K_CORPUS] = "boundary_corpus_items", [K_WIDE] = "wide_partially_filled_definite_containers",
+                 [K_LOSSY] = "trees_with_half_items_holding_non_half_values",
 #if PROP == 7
                  [VC_USER + 24] = "encoder_buffer_sizes_tried", [VC_USER + 25] = "encoder_calls_with_too_small_buffer",
 #endif
